@@ -23,6 +23,12 @@ type segmentStack struct {
 
 	a []Segment
 
+	// numBatches counts, for a collection's stackDirtyTop, the batches
+	// executed since the merger's last ingest.  A batch that only
+	// touches child collections adds no segment to a, but still counts
+	// against MaxPreMergerBatches.  Immutable like a.
+	numBatches int
+
 	m sync.Mutex // Protects the fields the follow.
 
 	refs int
